@@ -15,6 +15,12 @@ theorem read_expects_20 : Gen.C01.readExpectedColumns = 20 := by decide
 /-- the writer selects the columns by name before `to_numpy()` -/
 theorem writer_selects_by_name : Gen.C01.writeSelectsCanonical = true := by decide
 
+/-- the writer replaces missing values by 0 itself (`fillna(0.0)` on what it writes), … -/
+theorem writer_fills_missing : Gen.C01.writeFillsMissingWithZero = true := by decide
+
+/-- … and casts to single precision (`astype(np.single)`) -/
+theorem writer_casts_single : Gen.C01.writeCastsSingle = true := by decide
+
 /-! ### helper lemmas -/
 
 private theorem rowsOf_flatMap (n : Nat) (g : List α → List β) (rows : List (List α))
@@ -94,6 +100,38 @@ theorem em_roundtrip_named (conv : α → β) (d : α) (d' : β) (t : Table α) 
   simp only [Option.map_some, particles, List.map_map]
   congr 1
 
+/-- **Missing values read back as 0, everything else as its single-precision rounding.** With the writer's
+conversion `conv isNaN r32 0` the named field of the loaded particle is `r32 0` where the table had a hole and
+`r32 v` otherwise — whatever `r32` is (the driver instantiates it with IEEE `Float.toFloat32`). -/
+theorem conv_missing (isNaN : α → Bool) (r32 : α → β) (zero v : α) (h : isNaN v = true) :
+    conv isNaN r32 zero v = r32 zero := by simp [conv, h]
+
+theorem conv_present (isNaN : α → Bool) (r32 : α → β) (zero v : α) (h : isNaN v = false) :
+    conv isNaN r32 zero v = r32 v := by simp [conv, h]
+
+theorem em_roundtrip_values (isNaN : α → Bool) (r32 : α → β) (zero : α) (d' : β) (t : Table α) (hN : t.rows ≠ []) :
+    (readEm (writeEm (conv isNaN r32 zero) zero t)).map (particles d')
+      = some (t.rows.map (fun r => Particle.ofFn (fun f =>
+          if isNaN (cell zero t.cols r f) then r32 zero else r32 (cell zero t.cols r f)))) := by
+  rw [em_roundtrip_named _ _ d' t hN]; rfl
+
+/-- by-name access on an accepted header is positional access at the column's position: for a header that
+is a permutation of the 20 names and a row of 20 cells, `cell` returns the cell stored under that name and
+never the default (the real code raises `KeyError` only for headers the constructor has already refused) -/
+theorem cell_of_accepted (d : α) (cols : List Field) (r : List α) (f : Field)
+    (hc : accepted cols = true) (hr : r.length = cols.length) :
+    ∃ i, ∃ (h : i < r.length), cols[i]? = some f ∧ cell d cols r f = r[i] := by
+  have hp : cols.Perm Field.all := by simpa [accepted, em_field_order, List.isPerm_iff] using hc
+  have hmem : f ∈ cols := hp.mem_iff.2 (Field.mem_all f)
+  have hnd : cols.Nodup := hp.nodup_iff.2 Field.all_nodup
+  obtain ⟨i, hi, hfi⟩ := List.getElem_of_mem hmem
+  refine ⟨i, by omega, by simp [hfi, List.getElem?_eq_getElem hi], ?_⟩
+  have hm : (f, r[i]'(by omega)) ∈ cols.zip r := by
+    rw [List.mem_iff_getElem]
+    refine ⟨i, by simp; omega, by simp [hfi]⟩
+  have hfst : (cols.zip r).map Prod.fst = cols := by rw [List.map_fst_zip]; omega
+  simp [cell, lookup_of_mem _ _ _ (by rw [hfst]; exact hnd) hm]
+
 /-- reading a canonical row by name returns the value written for that name -/
 theorem cell_canonical (d : β) (g : Field → β) (f : Field) : cell d Field.all (Field.all.map g) f = g f := by
   simp [cell, lookup_zip_map Field.all g f (Field.mem_all f)]
@@ -124,6 +162,33 @@ theorem em_write_perm_invariant (d : α) (cols cols' : List Field) (r r' : List 
       have hm := hp.mem_iff.1 (mem_of_lookup _ _ _ h')
       rw [lookup_of_mem _ _ _ (by rw [hfst]; exact hn) hm] at h
       cases h
+
+private theorem flatMap_congr_idx (g g' : List α → List β) :
+    ∀ (rs rs' : List (List α)), rs'.length = rs.length →
+      (∀ i (h1 : i < rs.length) (h2 : i < rs'.length), g' rs'[i] = g rs[i]) → rs'.flatMap g' = rs.flatMap g
+  | [], [], _, _ => rfl
+  | [], _ :: _, hl, _ => by simp at hl
+  | _ :: _, [], hl, _ => by simp at hl
+  | r :: rs, r' :: rs', hl, h => by
+    simp only [List.flatMap_cons]
+    have h0 : g' r' = g r := h 0 (by simp) (by simp)
+    rw [h0]
+    rw [flatMap_congr_idx g g' rs rs' (by simpa using hl)
+      (fun i h1 h2 => h (i + 1) (by simpa using h1) (by simpa using h2))]
+
+/-- file-level form: two tables with the same number of rows whose i-th rows hold the same named values
+(e.g. one is a column permutation of the other) give the **same file** -/
+theorem em_write_same_named (cv : α → β) (d : α) (t t' : Table α) (hl : t'.rows.length = t.rows.length)
+    (h : ∀ i (h1 : i < t.rows.length) (h2 : i < t'.rows.length) f,
+      cell d t'.cols t'.rows[i] f = cell d t.cols t.rows[i] f) :
+    writeEm cv d t' = writeEm cv d t := by
+  simp only [writeEm, hl]
+  congr 1
+  apply flatMap_congr_idx _ _ _ _ hl
+  intro i h1 h2
+  apply List.map_congr_left
+  intro f _
+  rw [h i h1 h2 f]
 
 /-- **Layout on disk**: dims 20 × N × 1 (x fastest), payload 20·N, the 20 fields of one particle
 contiguous in the documented order. -/
